@@ -35,6 +35,11 @@ def shapes():
         D("usePair", "let usePair (n:int) (s:string) =\n  let p = pair n s\n  let q = pair s n\n  (frt.Fst p, frt.Snd q)",
           deps=["pair"], locals=["n", "s", "p", "q"], tva=14),
         D("names", "let names (ss:[]Shape) =\n  ss\n  |> slice.Map describe\n  |> strings.Concat \", \"", deps=["describe", "Shape"], locals=["ss"], tva=8),
+        # a parse-time temporary (the parameter of _.X) inside a match that gets an emission-time temporary: which numbers the two carry
+        # depends on the definitions around (they can even carry the same number, one shadowing the other) - numbering only
+        D("Poly", "type Poly =\n| Pts of []Pt\n| NoPts", deps=["Pt"], decls=type_decls("Poly"), istype=True, tva=0, fwd=0),
+        D("xsOf", "let xsOf (p:Poly) =\n  match p with\n  | Pts ps -> slice.Map _.X ps\n  | NoPts -> slice.New<int> ()", deps=["Poly", "Pt"], locals=["p", "ps"], tva=8),
+        D("ysOf", "let ysOf (ps:[]Pt) =\n  slice.Map _.Y ps", deps=["Pt"], locals=["ps"], tva=6),
         D("x", "let x (a:int) =\n  a + 1", locals=["a"]),
         D("l", "let l =\n  \"top level l\"", decls="^l$"),
     ]}
